@@ -283,11 +283,27 @@ class World(EventDispatcher):
             f'Entity ID must be hashble, found {entity}, which is not')
 
         if immediate:
-            for component_type in self._entities[entity]:
+            for component_type, component in self._entities[entity].items():
                 self._components[component_type].discard(entity)
 
                 if not self._components[component_type]:
                     del self._components[component_type]
+
+                # Event handling, code replication from
+                # _clear_dead_entities
+                if (hasattr(component, '__events__')
+                        and ON_REMOVE_EVENT_NAME in component.__events__):
+                    if self._dispatch_enabled:
+                        getattr(component,
+                                component.__events__[ON_REMOVE_EVENT_NAME])(
+                                    entity, self)
+                    else:
+                        self.dispatch(ON_SINGLE_DISPATCH_EVENT_NAME,
+                                      ON_REMOVE_EVENT_NAME,
+                                      component, entity, self)
+
+                if hasattr(component, '__events__'):
+                    self.remove_handler(component)
 
             del self._entities[entity]
 
